@@ -100,6 +100,7 @@ type wwHist struct {
 	PostList  string            // non-empty: content right after Commit differs from the snapshot
 	Finals    [nRes]string
 	Timeout   string
+	Starved   string
 }
 
 func (h *wwHist) now() int64 { return time.Since(h.start).Nanoseconds() }
@@ -218,6 +219,23 @@ func (h *wwHist) sawFinals(w *wwWatch) bool {
 		}
 	}
 	return eos
+}
+
+// starved decides a watch that did not deliver the final marker writes in logical steps first: the writes
+// returned (they are committed), and a FRESH watch of the same scope, opened now, delivers them in its listing
+// and reaches end-of-snapshot while the old watch - still open, given 10 s - has not: the old watch lost
+// committed events. If the fresh watch does not complete either, the machine is too slow to tell (inconclusive).
+func (h *wwHist) starved(w *wwWatch) {
+	f := h.open(w.Name+"-fresh-after-timeout", w.Scope)
+	if f.End != "" {
+		return
+	}
+	ok := h.drainUntil(f, func() bool { return h.sawFinals(f) }, 10*time.Second)
+	f.w.Close()
+	if ok {
+		h.Starved = fmt.Sprintf("watch %s (opened after the restore) did not deliver the final marker writes within 10 s although they are committed and a fresh watch of the same scope, opened afterwards, delivered all of them and reached end-of-snapshot", w.Name)
+		h.Timeout = ""
+	}
 }
 
 // drainUntil consumes the watch until cond holds, the watch ends, or the watchdog fires.
@@ -404,6 +422,7 @@ func runWindowSeq(p wwParams) *wwHist {
 		if !h.drainUntil(w, func() bool { return h.sawFinals(w) }, 10*time.Second) && w.End == "" {
 			w.End = "timeout"
 			h.Timeout = w.Name + " did not deliver the final marker writes within 10s"
+			h.starved(w)
 		} else if w.End == "" {
 			w.End = "done"
 		}
@@ -566,6 +585,7 @@ func runWindowConc(p wwParams, rng *core.Rand) *wwHist {
 		if !h.drainUntil(w, func() bool { return h.sawFinals(w) }, 10*time.Second) && w.End == "" {
 			w.End = "timeout"
 			h.Timeout = w.Name + " did not deliver the final marker writes within 10s"
+			h.starved(w)
 		} else if w.End == "" {
 			w.End = "done"
 		}
@@ -594,6 +614,9 @@ func checkWindow(run *core.Run, h *wwHist) {
 			w[k] = v
 		}
 		run.Violation("C18:restore-window:"+key, fmt.Sprintf("restore-window scenario %d (%s): %s", h.P.Idx, h.P.Mode, what), w)
+	}
+	if h.Starved != "" {
+		viol("post-restore-commit-not-delivered:watch-starved", h.Starved, nil)
 	}
 	if h.Timeout != "" {
 		run.Inconclusive(fmt.Sprintf("restore-window scenario %d: %s", h.P.Idx, h.Timeout))
